@@ -50,16 +50,16 @@ import (
 type Scenario struct {
 	Case        string   `json:"case"`
 	Pull        bool     `json:"pull"`
-	Chunks      int      `json:"chunks"`      // payload size in 1 KiB chunks
-	DupEvery    int      `json:"dupEvery"`    // every n-th chunk repeats chunk 0 (duplicate blocks); 0 = none
-	SrcStore    bool     `json:"srcStore"`    // per-channel store on the data sender
-	DstStore    bool     `json:"dstStore"`    // per-channel store on the data receiver
-	Limits      []uint64 `json:"limits"`      // successive data limits granted by the responder's validator (0 = unlimited)
-	ReqFin      bool     `json:"reqFin"`      // responder requires finalization
-	ForcePause  bool     `json:"forcePause"`  // validator force-pauses the new request; the app then re-validates
-	PauseSide   string   `json:"pauseSide"`   // "", "I", "R": that side pauses after PauseAt progress events and resumes right after
+	Chunks      int      `json:"chunks"`     // payload size in 1 KiB chunks
+	DupEvery    int      `json:"dupEvery"`   // every n-th chunk repeats chunk 0 (duplicate blocks); 0 = none
+	SrcStore    bool     `json:"srcStore"`   // per-channel store on the data sender
+	DstStore    bool     `json:"dstStore"`   // per-channel store on the data receiver
+	Limits      []uint64 `json:"limits"`     // successive data limits granted by the responder's validator (0 = unlimited)
+	ReqFin      bool     `json:"reqFin"`     // responder requires finalization
+	ForcePause  bool     `json:"forcePause"` // validator force-pauses the new request; the app then re-validates
+	PauseSide   string   `json:"pauseSide"`  // "", "I", "R": that side pauses after PauseAt progress events and resumes right after
 	PauseAt     int      `json:"pauseAt"`
-	BounceSide  string   `json:"bounceSide"`  // "", "I", "R": that side's manager is stopped after BounceAt progress events, re-created on the same datastore, and restarts the channel
+	BounceSide  string   `json:"bounceSide"` // "", "I", "R": that side's manager is stopped after BounceAt progress events, re-created on the same datastore, and restarts the channel
 	BounceAt    int      `json:"bounceAt"`
 	RestartSide string   `json:"restartSide"` // "", "I", "R": that side calls RestartDataTransferChannel (same process, no bounce) after RestartAt progress events
 	RestartAt   int      `json:"restartAt"`
@@ -84,20 +84,20 @@ type EvLite struct {
 }
 
 type Obs struct {
-	Case        string    `json:"case"`
-	Scn         Scenario  `json:"scn"`
-	I           []EvLite  `json:"i"`
-	R           []EvLite  `json:"r"`
-	FinalI      kit.View  `json:"finalI"`
-	FinalR      kit.View  `json:"finalR"`
-	HasR        bool      `json:"hasR"` // responder has a channel with that id
-	HasAll      bool      `json:"hasAll"`
-	BytesEqual  bool      `json:"bytesEqual"`
-	UniqueBytes uint64    `json:"uniqueBytes"`
-	Blocks      int       `json:"blocks"`
-	Quiesced    bool      `json:"quiesced"`
-	ValCalls    []string  `json:"valCalls"`
-	Err         string    `json:"err"`
+	Case        string   `json:"case"`
+	Scn         Scenario `json:"scn"`
+	I           []EvLite `json:"i"`
+	R           []EvLite `json:"r"`
+	FinalI      kit.View `json:"finalI"`
+	FinalR      kit.View `json:"finalR"`
+	HasR        bool     `json:"hasR"` // responder has a channel with that id
+	HasAll      bool     `json:"hasAll"`
+	BytesEqual  bool     `json:"bytesEqual"`
+	UniqueBytes uint64   `json:"uniqueBytes"`
+	Blocks      int      `json:"blocks"`
+	Quiesced    bool     `json:"quiesced"`
+	ValCalls    []string `json:"valCalls"`
+	Err         string   `json:"err"`
 }
 
 type store struct {
@@ -581,12 +581,27 @@ func runScenario(t *testing.T, s Scenario) Obs {
 	case <-done:
 	case <-time.After(5 * time.Second):
 	}
-	if a, err := state(1); err == nil {
-		o.FinalI = kit.Project(a)
+	finalState := func(which int) (datatransfer.ChannelState, error) {
+		var st datatransfer.ChannelState
+		var err error
+		for try := 0; try < 5; try++ {
+			if st, err = state(which); err == nil {
+				return st, nil
+			}
+			time.Sleep(50 * time.Millisecond)
+		}
+		return nil, err
 	}
-	if b, err := state(2); err == nil {
+	if a, err := finalState(1); err == nil {
+		o.FinalI = kit.Project(a)
+	} else {
+		o.Err = "final state of the initiator unavailable: " + err.Error()
+	}
+	if b, err := finalState(2); err == nil {
 		o.FinalR = kit.Project(b)
 		o.HasR = true
+	} else if len(sR.log) > 0 {
+		o.Err = "final state of the responder unavailable although it announced events: " + err.Error()
 	}
 	o.HasAll = receiverHasAll()
 	if got, err := readAll(context.Background(), dst.dag, root); err == nil {
